@@ -1,6 +1,7 @@
 """C19 - explicit constructors build exactly the tensor they describe."""
 import itertools
 import numpy as np
+from fractions import Fraction
 import teneva
 from harness.common import *
 from symtt.ref import ref_full, ref_get, well_formed, multi_indices
@@ -200,6 +201,33 @@ def h_rand(ctx, kind, n, r, seed):
         Y = teneva.rand(n, r, a, b, seed=seed)
     elif kind == 'rand_norm':
         Y = teneva.rand_norm(n, r, 1., 2., seed=seed)
+        # a generator object whose standard-normal draws z are recorded: every entry is mean + deviation * z
+        # for a draw z of its own (mean and deviation symbolic)
+        from harness.c14 import _gen
+        g = _gen(ctx, 'norm')
+        mu = ctx.real('mu')
+        sg = ctx.real('sg')
+        ctx.assume(ctx.gt(sg, Fraction(1, 8)))
+        ctx.assume(ctx.lt(sg, 8))
+        ctx.assume(ctx.gt(mu, -8))
+        ctx.assume(ctx.lt(mu, 8))
+        Yg = teneva.rand_norm(n, r, mu, sg, seed=g)
+        zs = [z for Z in getattr(g, 'zlog', []) for z in np.asarray(Z).reshape(-1)]
+        es = [x for G in Yg for x in G.reshape(-1)]
+        ctx.claim('one_standard_normal_draw_per_entry', len(zs) == len(es))
+        if len(zs) == len(es):
+            if sym:
+                # (the order in which the cores consume the stream is not prescribed: match by variable)
+                byvar = {z.vars()[0] if isinstance(z.vars(), (list, tuple)) else next(iter(z.vars())): z for z in zs}
+                ok = []
+                for x in es:
+                    mine = [byvar[v] for v in x.vars() if v in byvar]
+                    ok.append(ctx.eq(x, mu + sg * mine[0]) if len(mine) == 1 else False)
+            else:
+                left = sorted(float(z) for z in zs)
+                got = sorted((float(x) - mu) / sg for x in es)
+                ok = [ctx.close(a_, b_, 1e-9) for a_, b_ in zip(got, left)]
+            ctx.claim('entries_are_mean_plus_deviation_times_standard_normal', ctx.all_(ok))
     elif kind == 'rand_stab':
         Y = teneva.rand_stab(n, r, 0.5, seed=seed)
     ctx.claim('well_formed', well_formed(Y, n))
